@@ -207,7 +207,7 @@ func (g *chainGen) buildLevel(depth int, initial Files, signers []*TestKey, name
 		var certChain string
 		if cfg.CertSteps && top && rng.Chance(60) {
 			certLeafKey = pool()[3]
-			certChain = rng.Pick([]string{"direct", "inter-layout", "inter-caller", "expired-leaf", "foreign-root", "missing-inter", "direct", "inter-layout", "foreign-inter-caller", "foreign-root-caller"})
+			certChain = rng.Pick([]string{"direct", "inter-layout", "inter-caller", "expired-leaf", "foreign-root", "missing-inter", "direct", "inter-layout", "foreign-inter-caller", "foreign-root-caller", "expired-inter-old-leaf"})
 			if cfg.CertChainBias != "" && rng.Chance(60) {
 				certChain = cfg.CertChainBias
 			}
@@ -912,6 +912,27 @@ func genChainCase(r *Runner, rng *Rng, cfg *ChainCfg) Case {
 		if len(vkeys) > 1 {
 			vkeys = vkeys[:1]
 		}
+	case "verifier-keytype", "verifier-scheme":
+		// a supplied verifier key the library cannot use (unknown key type / scheme not fitting the
+		// type): the layout must be REJECTED, not verified with the remaining keys or with none —
+		// half of the time the layout was altered after signing as well
+		// (seeded change c01-unsupported-keytype-skipped)
+		if len(vkeys) > 0 {
+			i := rng.Intn(len(vkeys))
+			k := map[string]any{}
+			for kk, vv := range vkeys[i].(map[string]any) {
+				k[kk] = vv
+			}
+			if cfg.Alter == "verifier-keytype" {
+				k["keytype"] = rng.Pick([]string{"rsa-v2", "", "dsa", "RSA", "ed448"})
+			} else {
+				k["scheme"] = rng.Pick([]string{"", "foo", "rsassa-pss-sha512x", "ed25519ph"})
+			}
+			vkeys[i] = k
+			if rng.Bool() {
+				layoutFile = alterPayloadString(rng, layoutFile, cfg.LayoutDSSE)
+			}
+		}
 	case "signed-by-others-only":
 		// keep file, replace verifier keys by a key that did not sign but has the same map key
 		k := keyJSON(pool()[8], false)
@@ -928,6 +949,11 @@ func genChainCase(r *Runner, rng *Rng, cfg *ChainCfg) Case {
 	switch cfg.DirEdit {
 	case "add":
 		fs["intruder.bin"] = "evil"
+	case "add-hidden":
+		// a file where tools like to look away: below a directory named .git (at any depth), a
+		// dot file, a backup file — inspections record EVERYTHING that is present
+		// (seeded change c09-inspections-exclude-dot-git)
+		fs[rng.Pick([]string{".git/hooks/post-checkout", "vendor/lib/.git/config", ".git/HEAD", "src/.git/x", ".hidden", "src/.gitignore", "a.txt~", "node_modules/x.js", ".git"})] = "evil"
 	case "remove":
 		for n := range fs {
 			delete(fs, n)
